@@ -6,6 +6,7 @@
 //! source the real parser and formatter are run and two lines are written:
 //!   sast <hex>  =>  ok <canonical AST dump> | err        (syntax errors only)
 //!   sfmt <hex>  =>  ok <hex of the formatted text> | err
+//!   sval <hex>  =>  ok 1 | err   (model only: the parsed AST meets the premises of the round-trip theorem)
 //! The Lean model (`Model/Schema/{Parse,Fmt}.lean`) answers the same lines. Implementation-only oracles for
 //! every source that parses: the formatted text parses, to the same schema (imports as a sorted list),
 //! with the same errors and warnings (positions aside), and formatting it again changes nothing.
@@ -691,7 +692,9 @@ fn main() {
                 writeln!(rust, "err").unwrap();
                 writeln!(req, "sfmt {}", h).unwrap();
                 writeln!(rust, "err").unwrap();
-                lines += 2;
+                writeln!(req, "sval {}", h).unwrap();
+                writeln!(rust, "err").unwrap();
+                lines += 3;
                 *dist.entry("syntax-error".into()).or_insert(0) += 1;
             }
             Ok(Some((d, d_sorted, f1, diag))) => {
@@ -699,7 +702,11 @@ fn main() {
                 writeln!(rust, "ok {}", d).unwrap();
                 writeln!(req, "sfmt {}", h).unwrap();
                 writeln!(rust, "ok {}", hexs(&f1)).unwrap();
-                lines += 2;
+                // the model's answer is 1 when the AST it parsed satisfies the premises of the round-trip theorem
+                // (well-formedness check, fuel bound) and the theorem's conclusion evaluates to true
+                writeln!(req, "sval {}", h).unwrap();
+                writeln!(rust, "ok 1").unwrap();
+                lines += 3;
                 *dist.entry("parsed".into()).or_insert(0) += 1;
                 *dist.entry(format!("size.{}", match src.len() { 0..=99 => "<100", 100..=499 => "<500", 500..=1999 => "<2000", _ => ">=2000" })).or_insert(0) += 1;
                 if samples.len() < 6 && lines % 97 == 5 && src.len() < 300 {
